@@ -333,8 +333,15 @@ void nsync_cv_signal (nsync_cv *pcv) {
 						ATM_LOAD (&DLL_WAITER (first)->remove_count);
 				} while (!ATM_CAS (&DLL_WAITER (first)->remove_count,
 						   old_value, old_value+1));
+				to_wake_list = nsync_dll_make_last_in_list_ (to_wake_list, first);
+			} else {
+				/* A non-native waiter (from nsync_wait_n()) is owned
+				   by the waiting thread, which may dequeue and
+				   discard it as soon as the spinlock is released;
+				   so wake it while the spinlock is still held.  */
+				ATM_STORE_REL (&first_nw->waiting, 0); /* release store */
+				nsync_mu_semaphore_v (first_nw->sem);
 			}
-			to_wake_list = nsync_dll_make_last_in_list_ (to_wake_list, first);
 			if ((first_nw->flags & NSYNC_WAITER_FLAG_MUCV) != 0 &&
 			    DLL_WAITER (first)->l_type == nsync_reader_type_) {
 				int woke_writer;
@@ -375,9 +382,13 @@ void nsync_cv_signal (nsync_cv *pcv) {
 								    &DLL_WAITER (p)->remove_count);
 							} while (!ATM_CAS (&DLL_WAITER (p)->remove_count,
 									   old_value, old_value+1));
+							to_wake_list = nsync_dll_make_last_in_list_ (
+								to_wake_list, p);
+						} else {
+							/* wake non-native waiter under the spinlock */
+							ATM_STORE_REL (&p_nw->waiting, 0); /* release store */
+							nsync_mu_semaphore_v (p_nw->sem);
 						}
-						to_wake_list = nsync_dll_make_last_in_list_ (
-							to_wake_list, p);
 					}
 				}
 			}
@@ -420,8 +431,12 @@ void nsync_cv_broadcast (nsync_cv *pcv) {
 					old_value = ATM_LOAD (&DLL_WAITER (p)->remove_count);
 				} while (!ATM_CAS (&DLL_WAITER (p)->remove_count,
 						   old_value, old_value+1));
+				to_wake_list = nsync_dll_make_last_in_list_ (to_wake_list, p);
+			} else {
+				/* wake non-native waiter under the spinlock */
+				ATM_STORE_REL (&p_nw->waiting, 0); /* release store */
+				nsync_mu_semaphore_v (p_nw->sem);
 			}
-			to_wake_list = nsync_dll_make_last_in_list_ (to_wake_list, p);
 		}
 		/* Release spinlock and mark queue empty. */
 		ATM_STORE_REL (&pcv->word, 0); /* release store */
